@@ -307,8 +307,12 @@ func (e *SutEnv) RunTx(i int) *TxResult {
 	}
 	if tx.JPOff {
 		evmI.CloseAspectCall()
+		e.L.Fired("F8.join-points-switched-off")
 	} else {
 		evmI.AspectCall()
+	}
+	if gas != tx.Gas {
+		e.L.Fired("F1.gas-cut")
 	}
 	ctx := e.Host.Ctx()
 	{
